@@ -48,7 +48,7 @@ CLAIMED = {
         technique="model-based testing: rapidcheck + exhaustive insertion orders against tree.c with a std::set/AVL-invariant oracle; Hypothesis switch programs executed through il2c against a dictionary model, IL ladder-depth bound, duplicate-label rejection",
         text="(a) tree.c linked in-process: all insertion orders of <= 8 keys (exhaustive) and random 64-bit key sequences, every AVL invariant checked after each "
              "insertion. (b) generated switch statements over all integer controlling types with up to 5000 cases are compiled, executed via il2c and probed at every key, "
-             "its neighbours and the type limits against a dictionary model; search depth is bounded from the IL; duplicate case constants/defaults must be rejected. Controlling expressions that need a conversion before the promotion (casts, assignments, += and ++ of a wider value) and arms whose labels sit inside loops, if statements and nested blocks are generated.",
+             "its neighbours and the type limits against a dictionary model; search depth is bounded from the IL; duplicate case constants/defaults must be rejected. Controlling expressions that need a conversion before the promotion (casts, assignments, += and ++ of a wider value) and arms whose labels sit inside loops, if statements and nested blocks are generated. A quarter of the case constants are spelled in another integer type that holds the value.",
         note="(a) exhaustive only for <= 8 keys (10 in thorough); (b) IL executed through il2c, not QBE; gcc/clang arbitrate model mismatches."),
     "C06": dict(
         category="exploration", design_ref="DESIGN.md 3/C06",
@@ -72,7 +72,7 @@ CLAIMED = {
         technique="model-based property testing: generated constant expressions with values and types predicted by an independent C arithmetic model, observed through every folding context (two-directional: accepted with the right value, rejected with the wrong one); clang arbitrates a mismatch",
         text="Generated constant expressions (all literal bases/suffixes/magnitudes, float literals, character and enum constants, sizeof/_Alignof/offsetof, all casts and operators) are "
              "and a systematic operator x operand-type x boundary-value table (119 k rows over int/unsigned/long/unsigned long, a seed-selected fifth in quick, all in thorough) are folded by cproc in static initialisers, static assertions, array bounds, enumerators, case labels, bit-field widths, _Alignas and ?: conditions on three targets; "
-             "emitted bytes must equal the model's value in the model's type, the negated assertion and a duplicate case label must be rejected; address constants are compared as (symbol, offset).",
+             "emitted bytes must equal the model's value in the model's type, the negated assertion and a duplicate case label must be rejected; address constants are compared as (symbol, offset). offsetof leaves with several subscripts in a row.",
         note="cmodel.py is the oracle (cross-validated with gcc/clang through C01's run-time twin 'exprs' and by clang arbitration of every mismatch); thread-local initialisers use the same emitdata path and are covered by C07."),
     "C05": dict(
         category="exploration", design_ref="DESIGN.md 3/C05",
@@ -81,7 +81,7 @@ CLAIMED = {
         text="Every (operator, left type, right type) triple over all arithmetic types, three enum types and bit-fields of ten widths, every integer literal spelling by base/suffix/magnitude, "
              "character/floating literals and ~110 pointer/qualifier/decay/member expressions are typed by cproc (observed via _Generic selection emitted as data) and compared with the "
              "C11 typing model; random nested expressions and random derived-type pairs for __builtin_types_compatible_p extend the search. The enumerated spaces are complete on x86_64 "
-             "(10 % sample on the other two targets in quick, complete in thorough). Enumeration constants (18 boundary values x differently typed initialisers, fixed underlying types, forward declarations), typeof/typeof_unqual and conversions that _Generic cannot see (observed through sizeof/typeof) are tabulated too. Probes of the predefined identifier __func__ (array type with terminator) inside function bodies.",
+             "(10 % sample on the other two targets in quick, complete in thorough). Enumeration constants (18 boundary values x differently typed initialisers, fixed underlying types, forward declarations), typeof/typeof_unqual and conversions that _Generic cannot see (observed through sizeof/typeof) are tabulated too. Probes of the predefined identifier __func__ (array type with terminator) inside function bodies. Function-scope probes of block-scope tag declarations (`struct S;` hiding an outer S).",
         note="cmodel.py typing rules are the oracle; clang --target (and gcc for compatibility judgements) arbitrate; enum pointees and top-level qualified arrays are excluded from the compatibility pairs because gcc/clang deviate from C11 there."),
     "C14": dict(
         category="exploration", design_ref="DESIGN.md 3/C14",
@@ -89,7 +89,7 @@ CLAIMED = {
         technique="model-based property testing with an independent UTF-8/16/32 + escape encoder (clang --target arbitration), exhaustive escape tables for every prefix, exhaustive catalogue of malformed UTF-8 that must be rejected or passed through unaltered",
         text="Generated string and character literals (all prefixes, all UTF-8 lengths and planes, simple/octal/hex escapes followed by digit-like characters, 2-4 way concatenations, "
              "explicit bounds, pointers, sizeof) are compiled for three targets and the emitted code units compared with an independent encoder; every octal and hex escape value 0..255 is "
-             "checked for every prefix (plain ones valued as char per target); 24 malformed UTF-8 sequences x 5 prefixes x 2 positions and 16 malformed literals must be diagnosed. Hexadecimal escapes are zero-padded to up to 33 digits.",
+             "checked for every prefix (plain ones valued as char per target); 24 malformed UTF-8 sequences x 5 prefixes x 2 positions and 16 malformed literals must be diagnosed. Hexadecimal escapes are zero-padded to up to 33 digits. A quarter of the literals carry 1-3 backslash-newline pairs in a row at drawn positions of their spelling.",
         note="Not asserted (implementation-defined or pinned otherwise by the test suite): signedness of u8 string elements, out-of-range escapes in strings, multi-character constants, non-ASCII in unprefixed/u8 character constants."),
     "C12": dict(
         category="exploration", design_ref="DESIGN.md 3/C12, 4",
@@ -150,7 +150,7 @@ CLAIMED = {
         engine="hypothesis+enumeration",
         technique="differential testing of stage 1 (gcc-built) against stage 2 (cproc's own IL for its sources, translated by il2c and built with gcc) on generated valid programs, constant-expression units and the C04 fold table (stage 2 folds with cproc's own lowering of eval.c), catalogue violations, token mutants, the test corpus and cproc's own sources; bootstrap fixed-point comparison",
         text="Stage 2 is rebuilt from the current tree on every run. Both binaries (same basename, different directories) are run with identical arguments on every input x target x {compile, -E}; stdout, stderr and exit status must be "
-             "byte-identical, and stage 2 must reproduce the stage-1 IL of every source of the compiler.",
+             "byte-identical, and stage 2 must reproduce the stage-1 IL of every source of the compiler. A tree whose stage 1 cannot compile the compiler's own sources (or emits malformed IL for them) is reported as a violation with a replay.",
         note="Stage 2 goes through il2c + gcc -O1 rather than QBE + as + ld, so defects of the real backend are out of reach; inputs on which stage 1 crashes are skipped (C19)."),
     "C17": dict(
         category="exploration", design_ref="DESIGN.md 3/C17, 11",
@@ -158,7 +158,7 @@ CLAIMED = {
         technique="model-based property testing of the driver: Hypothesis draws command lines from the option grammar of cproc(1); the driver (three builds, one per target triple) runs with recording stand-in tools; argv, pipe identity, inherited descriptors, outputs and exit status are compared with a model written from cproc.1/README",
         text="Command lines with up to 6 inputs of all 7 types (by suffix and -x), every mode flag (also repeated), -o in all forms, every forwarding option attached and detached, ignored, unknown and dangling options, "
              "and a second source with undocumented-but-accepted options (weaker oracle): stages per input, pipe order, each tool's argument multiset and per-group order, link-line order, output names, "
-             "-v trace, usage errors (status 2, nothing run, nothing written) must match the model. Exploration level. Every ordered pair of 28 options is enumerated in four layouts around fixed inputs (the effect of an option must not depend on the position of another).",
+             "-v trace, usage errors (status 2, nothing run, nothing written) must match the model. Exploration level. Every ordered pair of 28 options is enumerated in four layouts around fixed inputs (the effect of an option must not depend on the position of another). Option values include strings that begin with a dash, attached and detached.",
         note="The tools are stand-ins (native/stub.c), so only the driver's own behaviour is observed; where cproc.1 is silent every behaviour is accepted (marked PERMISSIVE in vlib/props/c17.py); two recorded findings "
              "(-emit-qbe default output, -pthread position) are matched only when the observation equals the model with exactly that rule changed."),
     "C18": dict(
@@ -167,7 +167,7 @@ CLAIMED = {
         technique="fault injection through stand-in tools: exhaustive enumeration of single faults (pipeline shape x stage instance x fault kind x fast/slow neighbours) plus Hypothesis multi-fault vectors with delays and large outputs; invariants of the property statement as oracle, orphan detection via PR_SET_CHILD_SUBREAPER",
         text="Every single-fault vector over 1-3 inputs x last stage in {preprocess, compile, codegen, assemble, link} x {command missing, exit 1 before reading / after half the output / after finishing, SIGSEGV, SIGKILL} is enumerated "
              "(exhaustive for that space); multi-fault vectors, delays, mixed input types and outputs larger than a pipe buffer are drawn. Any fault must give exit status > 0, no link step, no outputs of failing pipelines, "
-             "no temporary object left, no stage process orphaned or still running, slow neighbours terminated, termination within 20 s; fault-free vectors must succeed with complete outputs. Further dimensions: the driver inherits a child it did not spawn (exits while it waits), and '-o -' (refused for objects with nothing started or left behind).",
+             "no temporary object left, no stage process orphaned or still running, slow neighbours terminated, termination within 20 s; fault-free vectors must succeed with complete outputs. Further dimensions: the driver inherits a child it did not spawn (exits while it waits), and '-o -' (refused for objects with nothing started or left behind). A third of the fault vectors run the driver under a 241-character name (symbolic link) or from a directory 240 characters deeper.",
         note="Faults are those a stand-in can produce (exit status, signals, missing command, partial output, delay); kernel-level interleavings are not enumerated, termination orders are forced with delays only; "
              "temporaries are recognised by the /tmp/cproc-XXXXXX names seen in argv or the -v trace."),
 }
